@@ -14,6 +14,15 @@ from .core import (Index, Module, FuncDef, ClassDef, VarDef, ParamDef, LocalDef,
 MAX_DEPTH = 14
 
 
+class Opaque:
+    """marker base class for abstract (non-constant) values that may be stored inside records;
+    the folder never computes with them"""
+
+
+def _opq(*vs) -> bool:
+    return any(isinstance(v, Opaque) for v in vs)
+
+
 class Unknown:
     def __init__(self, reason: str):
         self.reason = reason
@@ -273,6 +282,8 @@ class Folder:
             v = F(node.operand)
             if is_unknown(v):
                 return v
+            if _opq(v):
+                return Unknown('opaque operand')
             try:
                 if isinstance(node.op, ast.Not):
                     return not v
@@ -285,7 +296,7 @@ class Folder:
             return Unknown('unary op')
         if isinstance(node, ast.BoolOp):
             vals = [F(v) for v in node.values]
-            if any(is_unknown(v) for v in vals):
+            if any(is_unknown(v) for v in vals) or _opq(*vals):
                 return Unknown('boolop operand')
             r = vals[0]
             for v in vals[1:]:
@@ -296,7 +307,7 @@ class Folder:
             res = True
             for op, c in zip(node.ops, node.comparators):
                 right = F(c)
-                if is_unknown(left) or is_unknown(right):
+                if is_unknown(left) or is_unknown(right) or _opq(left, right):
                     return Unknown('compare operand')
                 try:
                     if isinstance(op, (ast.Eq, ast.Is)):
@@ -326,6 +337,8 @@ class Folder:
             t = F(node.test)
             if is_unknown(t):
                 return Unknown('ifexp test: ' + t.reason)
+            if _opq(t):
+                return Unknown('opaque test')
             return F(node.body) if t else F(node.orelse)
         if isinstance(node, ast.Subscript):
             base = F(node.value)
@@ -342,6 +355,8 @@ class Folder:
             idx = F(node.slice)
             if is_unknown(idx):
                 return idx
+            if _opq(idx, base):
+                return Unknown('opaque subscript')
             if isinstance(base, Record):
                 el = self.record_tuple_element(base, idx, depth)
                 return el
@@ -413,6 +428,8 @@ class Folder:
     def attr_of_value(self, base, attr: str, depth=0):
         if is_unknown(base):
             return base
+        if _opq(base):
+            return Unknown('attribute of an opaque value')
         if isinstance(base, EnumMember):
             if attr == 'name':
                 return base.name
@@ -624,6 +641,8 @@ class Folder:
         args = [F(a) for a in node.args]
         if any(is_unknown(a) for a in args):
             return Unknown('argument of %s(): %s' % (name, next(a.reason for a in args if is_unknown(a))))
+        if _opq(*args):
+            return Unknown('opaque argument of %s()' % name)
         try:
             if name in ('frozenset', 'set'):
                 return frozenset(_ordered(args[0])) if args else frozenset()
@@ -730,6 +749,8 @@ class Folder:
             return l
         if is_unknown(r):
             return r
+        if _opq(l, r):
+            return Unknown('opaque operand')
         try:
             if isinstance(op, ast.Add):
                 if isinstance(l, tuple) and isinstance(r, list):
